@@ -337,6 +337,8 @@ class Splicer:
         self.items_copied: List[str] = []
         self.log: List[str] = []
         self.assoc: Dict[str, str] = {}
+        self.helpers_needed: Dict[str, List] = {}     # module -> [(item, parent impl or None)] functions unknown to the contract files but called
+        self.unknown_fns: Dict[str, Dict[str, tuple]] = {}
 
     # ---- emit helpers
     def emit(self, text: str, **meta):
@@ -475,6 +477,21 @@ class Splicer:
             body_open = len(toks) - 1      # the ';'
             body_close = body_open
         edits: List[Tuple[int, int, str, str, dict]] = []   # (start, end, text, kind, meta)  offsets local to `text`
+        # a call of a function of this module that no contract file knows (e.g. a freshly extracted helper): it is emitted without
+        # a contract and unverified, and so is every function that calls it
+        if it.has_body:
+            mod0 = key.split("::", 1)[0]
+            called = []
+            for i in range(body_open, body_close):
+                if toks[i].kind == "ident" and toks[i + 1].text == "(" and toks[i].text in self.unknown_fns.get(mod0, {}):
+                    called.append(toks[i].text)
+            if called:
+                for nm in sorted(set(called)):
+                    ent = self.unknown_fns[mod0][nm]
+                    if ent not in self.helpers_needed.setdefault(mod0, []):
+                        self.helpers_needed[mod0].append(ent)
+                if not external:
+                    raise SpliceError("lost anchor: %s calls function(s) that no contract file knows: %s" % (key, sorted(set(called))))
 
         def ins(off, s, kind, **meta):
             edits.append((off, off, s, kind, meta))
@@ -895,7 +912,29 @@ class Splicer:
     # ---- template driver
     def run(self):
         files = sorted(f for f in os.listdir(self.cdir) if f.endswith(".rs"))
+        # functions of /repo that no contract file mentions
+        known = set()
+        for f in files:
+            for ln in open(os.path.join(self.cdir, f), encoding="utf-8"):
+                m = re.match(r"\s*//@(fn|sig) (.*)$", ln)
+                if m:
+                    known.add(split_key(m.group(2))[0])
+        common = {"trim_cr", "new", "fmt", "source", "from", "next", "len", "clone", "default", "eq", "into_iter", "drop", "next_back", "size_hint"}
+        for mod, sf in self.sources.items():
+            tab = {}
+            def walk(items, parent, prefix):
+                for it in items:
+                    if it.kind == "fn":
+                        k = mod + "::" + prefix + it.name
+                        if k not in known and it.name not in common and it.has_body:
+                            tab[it.name] = (it, parent)
+                    elif it.children:
+                        nm = it.self_key or it.name or ""
+                        walk(it.children, it if it.kind in ("impl", "trait") else parent, (nm + "::") if nm else prefix)
+            walk(sf.items, None, "")
+            self.unknown_fns[mod] = tab
         cur_lemma, lem_label, lem_tags = None, None, ()
+        cur_mod = None
         for f in files:
             path = os.path.join(self.cdir, f)
             self.defaults = {}
@@ -942,6 +981,21 @@ class Splicer:
                 elif s.startswith("//@"):
                     raise SpliceError("%s:%d: unknown directive %s" % (f, i + 1, s))
                 else:
+                    mm = re.match(r"\s*pub mod (\w+) \{", ln)
+                    if mm:
+                        cur_mod = {"lib_": "lib"}.get(mm.group(1), mm.group(1))
+                    if ln.strip() == "} // verus!" and self.helpers_needed.get(cur_mod):
+                        sfm = self.sources[cur_mod]
+                        for (hit, hparent) in self.helpers_needed.pop(cur_mod):
+                            htext = re.sub(r"^pub(\([a-z]+\))?\s+", "", sfm.src[hit.start:hit.end], count=1)
+                            if hparent is not None:
+                                hdr = sfm.src[hparent.start:hparent.head_end].rstrip()
+                                block = hdr + " {\n#[verifier::external_body]\n" + htext + "\n}"
+                            else:
+                                block = "#[verifier::external_body]\n" + htext
+                            self.log.append("%s::%s: function unknown to the contract files, emitted unverified and without contract" % (cur_mod, hit.name))
+                            for bl in block.split("\n"):
+                                self.lines.append(Line(bl, kind="real", src=(sfm.path, sfm.line_of(hit.start))))
                     # contract text outside //@fn: lemmas and spec functions.  A labelled clause `[Cxx|label] ..` of a lemma is an
                     # obligation of the listed properties; the label stays in force until the next clause keyword or label.
                     m = re.search(r"\bproof fn (\w+)", ln)
